@@ -6,6 +6,7 @@ import (
 	"io"
 	"strconv"
 	"strings"
+	"unicode/utf8"
 
 	"github.com/gkampitakis/go-diff/diffmatchpatch"
 	"github.com/gkampitakis/go-snaps/internal/colors"
@@ -41,7 +42,10 @@ func hasNewLine(b []byte) bool {
 // shouldPrintHighlights checks if the two strings are going to be presented with
 // inline highlights
 func shouldPrintHighlights(a, b string) bool {
-	return !colors.NOCOLOR && a != "" && b != "" && isSingleline(a) && isSingleline(b)
+	// the inline differ works on runes: bytes that are not valid UTF-8 all decode to the same replacement rune,
+	// so such texts must be compared with the line diff instead
+	return !colors.NOCOLOR && a != "" && b != "" && isSingleline(a) && isSingleline(b) &&
+		utf8.ValidString(a) && utf8.ValidString(b)
 }
 
 // Compare two sequences of lines; generate the delta as a unified diff.
